@@ -63,12 +63,14 @@ var (
 var (
 	zoneEast = time.FixedZone("", 5*3600+1800)
 	zoneWest = time.FixedZone("", -(3*3600 + 1800))
+	zoneOdd  = time.FixedZone("", 19*60+32) // an offset that is not a whole number of minutes (Amsterdam before 1937)
 	timePool = []time.Time{
 		{},
 		time.Date(2002, 9, 10, 23, 8, 25, 0, time.UTC),
 		time.Date(2021, 12, 31, 23, 59, 59, 123456789, time.UTC),
 		time.Date(2020, 2, 29, 1, 2, 3, 0, zoneEast),
 		time.Date(1999, 1, 1, 0, 0, 0, 500000000, zoneWest),
+		time.Date(1936, 6, 1, 12, 0, 0, 0, zoneOdd),
 	}
 )
 
@@ -292,6 +294,9 @@ func (s *spec) productSize(t reflect.Type, path string) float64 {
 
 func renderTime(t time.Time) string {
 	_, off := t.Zone()
+	// the instant is compared exactly, the zone at the resolution the wire
+	// formats have (XEP-0082 / RFC 3339 offsets carry hours and minutes)
+	off -= off % 60
 	return t.UTC().Format("2006-01-02T15:04:05.000000000Z") + fmt.Sprintf("%+d", off)
 }
 
